@@ -7,6 +7,7 @@ pub mod c04;
 pub mod c05;
 pub mod c06;
 pub mod c09;
+pub mod c10;
 pub mod c11;
 pub mod c12;
 pub mod c13;
@@ -27,6 +28,7 @@ macro_rules! dispatch {
             "C05" => c05::$f($ctx $(, $arg)?),
             "C06" => c06::$f($ctx $(, $arg)?),
             "C09" => c09::$f($ctx $(, $arg)?),
+            "C10" => c10::$f($ctx $(, $arg)?),
             "C11" => c11::$f($ctx $(, $arg)?),
             "C12" => c12::$f($ctx $(, $arg)?),
             "C13" => c13::$f($ctx $(, $arg)?),
